@@ -328,19 +328,19 @@ def check_l3(case, rec):
 
 
 def search_l1(ctx):
-    ctx.given(l1_case(), ctx.n(20_000, 1_000_000))
+    ctx.given(l1_case(), ctx.n(20_000, 400_000))
 
 
 def search_rowwise(ctx):
-    ctx.given_shared(rw_case(), ctx.total(160, 6000))
+    ctx.given_shared(rw_case(), ctx.total(160, 3000))
 
 
 def search_l2(ctx):
-    gs.run_stratified(ctx, ctx.total(70, 900))
+    gs.run_stratified(ctx, ctx.total(70, 500))
 
 
 def search_l3(ctx):
-    gs.run_stratified(ctx, ctx.total(4, 32), methods=["NEARSQUARE", "RECTANGLE", "BIRECTANGLE", "BIZONEDRECTANGLE"],
+    gs.run_stratified(ctx, ctx.total(4, 16), methods=["NEARSQUARE", "RECTANGLE", "BIRECTANGLE", "BIZONEDRECTANGLE"],
                       outcomes=["inside", "huge", "tiny"], months=st.sampled_from([12, 36]))
 
 
